@@ -59,6 +59,9 @@ pub struct Expect {
     pub lenient_ghosts: Vec<usize>,
     /// 2Q/ARC `remove` of a ghost-only key (L3) etc: free-text tag of the branch taken
     pub branch: &'static str,
+    /// (list index, entry) that must sit at the most-recent end of that (lenient) ghost list:
+    /// the victim of a ghost-hit put, which nothing allows to be forgotten at once
+    pub front_required: Vec<(usize, (u32, u64))>,
 }
 
 impl Expect {
@@ -69,6 +72,7 @@ impl Expect {
             est: EstEffect::Untouched,
             lenient_ghosts: Vec::new(),
             branch,
+            front_required: Vec::new(),
         }
     }
     pub fn est(mut self, e: EstEffect) -> Self {
@@ -114,7 +118,7 @@ pub fn matches(e: &Expect, val: &Val, post: &MState, front_required: &[(usize, (
                     i, obs, exp
                 ));
             }
-            for (li, ent) in front_required {
+            for (li, ent) in front_required.iter().chain(e.front_required.iter()) {
                 if *li == i && obs.first() != Some(ent) {
                     return Err(format!(
                         "ghost list #{} is {:?} but the entry just evicted into it {:?} must be at its most-recent end",
